@@ -474,6 +474,33 @@ def f_cert_rsa(case):
     return any(c.get("cert") and str(c["srk"]).startswith("rsa") for c in case["containers"])
 
 
+def f_cert_unpadded(case):
+    """C06-cert-eq-padding: a certificate configured without UUID or with less than 12 bytes of permission data; the parsed
+    object holds the zero-padded fields and AhabCertificate.__eq__ compares the raw attributes."""
+    return any(c.get("cert") and (not c["cert"]["uuid"] or len(c["cert"]["permdata"] or "") < 24) for c in case["containers"])
+
+
+def sb_equal_modulo_cert_padding(p, o):
+    """signature blocks equal when the two certificates are compared by every attribute of AhabCertificate.__eq__ with UUID and
+    permission data zero-padded to their field widths (and by their exported bytes)"""
+    cp, co = p.certificate, o.certificate
+    if (cp is None) != (co is None):
+        return False
+    if cp is None:
+        return p == o
+    try:
+        p.certificate = o.certificate = None
+        rest = p == o
+    finally:
+        p.certificate, o.certificate = cp, co
+    pad = lambda b, n: bytes(b or b"").ljust(n, b"\0")      # noqa: E731
+    return (rest and bytes(cp.export()) == bytes(co.export()) and cp._permissions == co._permissions and cp.fuse_version == co.fuse_version
+            and pad(cp.permission_data, 12) == pad(co.permission_data, 12) and pad(cp._uuid, 16) == pad(co._uuid, 16)
+            and cp.signature_offset == co.signature_offset and cp.length == co.length
+            and cp.public_key_0 == co.public_key_0 and cp.signature_0 == co.signature_0
+            and cp.public_key_1 == co.public_key_1 and cp.signature_1 == co.signature_1)
+
+
 CERT_PERMS = {"container": 0x01, "debug": 0x02, "secure_fuse": 0x08, "return_life_cycle": 0x10, "patch_fuses": 0x40}
 
 
@@ -631,8 +658,13 @@ def _run_case(cx, case, tag):
     if s.expect(rp[0] == "ok", case, "parse() refuses the exported image", rp):
         same = (len(a2.ahab_containers) == len(ahab.ahab_containers)
                 and all(p == o and p.signature_block == o.signature_block for p, o in zip(a2.ahab_containers, ahab.ahab_containers)))
+        fpad = None
+        if not same and f_cert_unpadded(case) and len(a2.ahab_containers) == len(ahab.ahab_containers) \
+                and all(p == o and sb_equal_modulo_cert_padding(p.signature_block, o.signature_block)
+                        for p, o in zip(a2.ahab_containers, ahab.ahab_containers)):
+            fpad = "C06-cert-eq-padding"
         s.expect(same, case, "parse(export(x)) is not equal to x (containers, image entries or signature blocks)",
-                 [repr(c) for c in a2.ahab_containers])
+                 [repr(c) for c in a2.ahab_containers], finding=fpad)
         if cx.drv is not None:
             got = cx.drv.ask(f"parse v{case['ver']} {row['containers_max_cnt']} {hexs(binary)}")
             real_d = real_parse_dump(a2)
